@@ -424,7 +424,8 @@ class ScriptPolicy(Policy):
                 return ('timer',)
             if ch[0] == 'cancel':
                 return ('cancel', ch[1])
-            if ch[0] == 'stop':
+            if ch[0] == 'stop' and not ready and not gates and not timers:
+                # (a recorded deadlock is a deadlock only if the loop really is idle here: on repaired code the run goes on)
                 return ('stop',)
             self.bad = True
         if ready:
